@@ -101,3 +101,11 @@ Section Reservation.
     - constructor; [lia|constructor].
   Qed.
 End Reservation.
+
+(* Serialize for MiniVec is the delegation `serializer.collect_seq(self)` and nothing else: serde's
+   collect_seq (trusted) announces the exact length of `self`'s iterator -- the slice iterator through
+   Deref -- emits the items in order and ends the sequence.  Re-checked against the regenerated body. *)
+Lemma serialize_delegates_to_collect_seq :
+  fn_body serde__MiniVec__serialize_ast = Blk [] (Some (ECall ".collect_seq" [EVar "serializer"; EVar "self"])) /\
+  fn_params serde__MiniVec__serialize_ast = ["self"; "serializer"].
+Proof. split; reflexivity. Qed.
